@@ -5,6 +5,10 @@ HERE = os.path.dirname(os.path.dirname(os.path.abspath(__file__)))
 ALL = [f'C{i:02d}' for i in range(1, 21)]
 
 CHECKS = {
+ 'C15': dict(level='exploration', design='3/C15',
+   technique='runtime monitor on the real send queue / send loop: exhaustive enumeration of both random draws (stubbed random), virtual clock, fake sockets; arithmetic oracle from the statement',
+   text='The real NetworkingThread._repeated_enqueue_msg is executed for EVERY pair of outcomes of its two random draws (domains learned from the code itself by a dry run; 2 x 100 200 cases) for the unicast and multicast parameter sets and the entries on the real priority queue are checked against the formulas of the statement (count, initial delay, first gap window, doubling, cap). The real _run_send loop is driven on a virtual clock against a fake socket (every datagram counted, timed, ordered) and the own datagrams are fed back through the real _run_q_read loop (must be ignored; foreign ones handled once). Exhaustive for the draw space, sampled for the loop parts.',
+   note='Trusted: time/random are looked up as module globals of networkingthread; sockets/selectors are fakes, the kernel UDP path is not exercised.'),
  'C18': dict(level='exploration', design='3/C18',
    technique='runtime oracle on the real converters: exhaustive ms windows + seeded value generators, arithmetic (Fraction) and XSD-lexical recognisers as oracle',
    text='Real TimestampConverter/DecimalConverter/DurationConverter/isoduration/Integer/Boolean/Enum converters executed on every ms value of two dense windows (from 0 and around the current epoch), strided samples up to 2^53/1000, every (sign, digit count<=18, scale -18..18) decimal shape, generated durations/dates and every enum member; results compared with exact rational arithmetic and lexical recognisers written from XSD part 2. Held on what was enumerated/sampled, nothing more.',
